@@ -54,8 +54,8 @@ def configs(tier):
     out = []
     for entry in CONT_SIR + CONT_SIS + DISC:
         sir = 'SIR' in entry
-        for g in ['P3'] + (['K3', 'S3'] if tier == 'thorough' else []):
-            for style in ('list', 'set', 'array', 'dictkeys'):
+        for g in ['P3', 'P3loop'] + (['K3', 'S3'] if tier == 'thorough' else []):
+            for style in (('list', 'set', 'array', 'dictkeys') if g != 'P3loop' else ('list',)):
                 for full in (False, True):
                     c = dict(family='sim', entry=entry, graph=g, I0=[0, 1] if style != 'list' else [1], R0=[2] if sir else [], full=full, ic_style=style,
                              r_style='list', weights='both' if entry in ('Gillespie_SIR', 'Gillespie_SIS', 'fast_SIR', 'fast_SIS') else 'none',
